@@ -45,6 +45,11 @@ def ap_consts(p):
     return bool(cs & X.mentions([u['body'] for u in p['units']]))
 
 
+def ap_extconsts(p):
+    cs = {d['name'] for d in p['units'][0]['decls'] if d.get('param') == 'cmod'}
+    return bool(cs & X.mentions([u['body'] for u in p['units']]))
+
+
 def ap_any(p):
     return ap_marked(p) or ap_internal(p) or ap_functions(p) or ap_stmtfunc(p) or ap_consts(p)
 
@@ -57,14 +62,18 @@ SLICES = {
     'marked-print': (('modsubs', 'marked', 'calleeprint'), X.tf_marked(), ap_marked, 1),
     'marked-exprdep': (('modsubs', 'marked', 'exprdep'), X.tf_marked(), ap_marked, 1),
     'marked-identnames': (('modsubs', 'marked', 'identnames'), X.tf_marked(), ap_marked, 1),
+    'marked-nestedsub': (('modsubs', 'marked', 'nestedsub'), X.tf_marked(), ap_marked, 1),
     'marked-nested': (('modsubs', 'marked', 'nested', 'functions'), X.tf_marked(), ap_marked, 1),
     'internal': (BASE + ('internal', 'modsubs'), X.tf_internal, ap_intsub, 3),
+    'internal-nestedsub': (('internal', 'nestedsub'), X.tf_internal, ap_intsub, 1),
     'internal-fn': (('internal', 'internalfn'), X.tf_internal, ap_internal, 1),
     'functions': (BASE + ('functions', 'elemental'), X.tf_functions(), ap_functions, 3),
     'functions-all': (('functions',), X.tf_functions(explicit=False), ap_functions, 1),
     'elemental': (('functions', 'elemental', 'select'), X.tf_elemental, ap_elemental, 1),
-    'stmtfunc': (('stmtfunc', 'functions', 'consts', 'select'), X.tf_stmtfunc, ap_stmtfunc, 2),
-    'constants': (('consts', 'localconst', 'internal', 'select'), X.tf_constants(True), ap_consts, 2),
+    'stmtfunc': (('stmtfunc', 'consts', 'select'), X.tf_stmtfunc, ap_stmtfunc, 2),
+    'stmtfunc-nested': (('stmtfunc', 'sfnest'), X.tf_stmtfunc, ap_stmtfunc, 1),
+    'stmtfunc-fn': (('stmtfunc', 'functions'), X.tf_stmtfunc, ap_stmtfunc, 1),
+    'constants': (('consts', 'localconst', 'internal', 'select'), X.tf_constants(True), ap_extconsts, 2),
     'constants-all': (('consts', 'localconst', 'internal'), X.tf_constants(False), ap_consts, 1),
     'xform-default': (('modsubs', 'marked', 'functions', 'elemental', 'stmtfunc', 'consts', 'internal'),
                       X.tf_transformation(), ap_any, 1),
